@@ -2,6 +2,7 @@
 package filesystem
 
 import (
+	"fmt"
 	"io"
 	iofs "io/fs"
 	"os"
@@ -80,6 +81,10 @@ type node struct {
 
 	options *Options
 
+	// hashErr holds the first error that kept a file of this walk from being
+	// hashed. It is shared by every node of one tree; see HashError.
+	hashErr *error
+
 	// scope is the ignore scope governing this node's entries. On a child it
 	// starts as the parent's scope and is replaced by this directory's own on
 	// the first calculateChildren, which is when the listing that reveals
@@ -157,6 +162,7 @@ func NewRootNodeWithOptions(
 		idxMap:      idxMap,
 		trackedDirs: trackedDirs,
 		options:     &options,
+		hashErr:     new(error),
 		isDir:       true,
 		// The root scope already accounts for the root's own ignore files, so
 		// it must not descend again.
@@ -343,6 +349,7 @@ func (n *node) newChildNode(file os.FileInfo) (*node, error) {
 		idxMap:      n.idxMap,
 		trackedDirs: n.trackedDirs,
 		options:     n.options,
+		hashErr:     n.hashErr,
 
 		// The child inherits this directory's scope and resolves its own on
 		// its first listing.
@@ -450,10 +457,32 @@ func (n *node) metadataMatches(entry *index.Entry) bool {
 	return true
 }
 
+// HashError returns the first error that kept the walk rooted at root from
+// reading a file it had to hash, or nil. Hash has no way to report a failure:
+// the file gets the zero hash and so compares as different from anything. A
+// caller that turns the comparison into a statement about the file (a status,
+// a checkout plan) must check HashError after the walk, or a transient I/O
+// error reads as "modified". A file that disappeared during the walk is not an
+// error: it is reported as whatever the listing said, as before.
+func HashError(root noder.Noder) error {
+	n, ok := root.(*node)
+	if !ok || n.hashErr == nil {
+		return nil
+	}
+	return *n.hashErr
+}
+
+func (n *node) hashFailed(err error) plumbing.Hash {
+	if n.hashErr != nil && *n.hashErr == nil && !os.IsNotExist(err) {
+		*n.hashErr = fmt.Errorf("hashing %s: %w", n.path, err)
+	}
+	return plumbing.ZeroHash
+}
+
 func (n *node) doCalculateHashForRegular() plumbing.Hash {
 	f, err := n.fs.Open(n.path)
 	if err != nil {
-		return plumbing.ZeroHash
+		return n.hashFailed(err)
 	}
 	defer func() { _ = f.Close() }()
 
@@ -466,11 +495,11 @@ func (n *node) doCalculateHashForRegular() plumbing.Hash {
 
 		stat, err := convert.GetStat(br)
 		if err != nil {
-			return plumbing.ZeroHash
+			return n.hashFailed(err)
 		}
 
 		if _, err := f.Seek(0, io.SeekStart); err != nil {
-			return plumbing.ZeroHash
+			return n.hashFailed(err)
 		}
 
 		if !stat.IsBinary() {
@@ -480,7 +509,7 @@ func (n *node) doCalculateHashForRegular() plumbing.Hash {
 	}
 
 	if _, err := ioutil.CopyBufferPool(dst, f); err != nil {
-		return plumbing.ZeroHash
+		return n.hashFailed(err)
 	}
 
 	return h.Sum()
@@ -489,7 +518,7 @@ func (n *node) doCalculateHashForRegular() plumbing.Hash {
 func (n *node) doCalculateHashForSymlink() plumbing.Hash {
 	target, err := n.fs.Readlink(n.path)
 	if err != nil {
-		return plumbing.ZeroHash
+		return n.hashFailed(err)
 	}
 
 	h := plumbing.NewHasher(format.SHA1, plumbing.BlobObject, n.size)
